@@ -114,6 +114,8 @@ func cmdRun(args []string) int {
 	workers := fs.Int("workers", 16, "workers")
 	noEvidence := fs.Bool("no-evidence", false, "do not write the evidence file")
 	noReplay := fs.Bool("no-replay", false, "do not replay counterexamples natively")
+	var paramOv multiFlag
+	fs.Var(&paramOv, "param", "override a harness parameter: name=value (repeatable; for experiments, not for registered checks)")
 	fs.Parse(args)
 	if t := os.Getenv("VERIF_TIER"); t != "" && !isFlagSet(fs, "tier") {
 		*tier = t
@@ -165,6 +167,19 @@ func cmdRun(args []string) int {
 		if ts.Skip {
 			continue
 		}
+		if len(paramOv) > 0 {
+			np := map[string]int{}
+			for k, v := range ts.Params {
+				np[k] = v
+			}
+			for _, kv := range paramOv {
+				if i := strings.IndexByte(kv, '='); i > 0 {
+					n, _ := strconv.Atoi(kv[i+1:])
+					np[kv[:i]] = n
+				}
+			}
+			ts.Params = np
+		}
 		cfg := &sx.Config{
 			Dir:          filepath.Join(verifRoot, "engine"),
 			Patterns:     h.Patterns,
@@ -185,6 +200,14 @@ func cmdRun(args []string) int {
 		}
 		if ts.BudgetS > 0 {
 			cfg.Deadline = time.Now().Add(time.Duration(ts.BudgetS) * time.Second)
+		}
+		for virt, real := range repoOverlay() {
+			data, err := os.ReadFile(real)
+			if err != nil {
+				fmt.Fprintln(os.Stderr, "repo overlay:", err)
+				return 2
+			}
+			cfg.Overlay[virt] = data
 		}
 		for virt, real := range h.Overlay {
 			data, err := os.ReadFile(filepath.Join(verifRoot, real))
@@ -376,6 +399,11 @@ func cmdRun(args []string) int {
 	}
 	return exit
 }
+
+type multiFlag []string
+
+func (m *multiFlag) String() string     { return strings.Join(*m, ",") }
+func (m *multiFlag) Set(v string) error { *m = append(*m, v); return nil }
 
 func mergeTier(q, t tierSpec) tierSpec {
 	out := q
